@@ -1090,6 +1090,61 @@ def enum_mux_values(rng, comp):
     return [{"m": v, "y": 0xA5} for v in out]
 
 
+def enum_struct_layout_orders():
+    """BYTE-SIZE structures whose members are positioned explicitly, in EVERY listing order (so the member listed last is
+    not the one that ends last), with 0-2 bytes of padding up to BYTE-SIZE, byte-aligned members and packed bit fields, at
+    offset 1 or 2 of `[sid, (o), s, y]`; yields (composite, value) with non-zero member values (a zeroed member is visible)"""
+    import itertools
+    layouts = [
+        # (name, bytepos, bitpos, bitlen, value)
+        [("a", 0, None, 8, 0x7A), ("b", 1, None, 8, 0xBC)],
+        [("a", 0, None, 8, 0x11), ("b", 1, None, 16, 0xBEEF), ("c", 3, None, 8, 0x5A)],
+        [("w", 0, 0, 12, 0xABC), ("n", 1, 4, 4, 0x5)],                 # wide value + narrow one behind it in the same bytes
+        [("f", 0, 7, 1, 1), ("v", 1, None, 16, 0x1234)],               # flag in byte 0, 16 bit value behind it
+        [("lo", 0, 0, 4, 0x9), ("hi", 0, 4, 4, 0x6), ("t", 1, None, 8, 0xE7)],
+    ]
+    n = 0
+    for lay in layouts:
+        natural = max(bp + ((bit or 0) + bl + 7) // 8 for _, bp, bit, bl, _ in lay)
+        for perm in itertools.permutations(range(len(lay))):
+            for pad in (0, 1, 2):
+                for off in (0, 1):
+                    for bytesize in (True, False):
+                        if not bytesize and pad:
+                            continue
+                        n += 1
+                        members = [D.value(lay[i][0], D.u8(lay[i][3]), bytepos=lay[i][1], bitpos=lay[i][2]) for i in perm]
+                        st = D.Struct(members, bytesize=(natural + pad) if bytesize else None)
+                        ps = [D.sid()] + [D.value(f"o{i}", D.u8()) for i in range(off)] + [D.value("s", st), D.value("y", D.u8())]
+                        val = {"s": {nm: v for nm, _, _, _, v in lay}, "y": 0xA5}
+                        val.update({f"o{i}": 0x33 for i in range(off)})
+                        yield D.Composite(f"L{n}", "request", ps), val
+
+
+def enum_minmax_terminated():
+    """terminated MIN-MAX-LENGTH objects of every string / byte-field type x ZERO / HEX-FF x byte order, followed by a parameter,
+    with values chosen around the termination sequence: last wire byte equal to the terminator byte (so that a misaligned
+    two-byte hit overlaps the real terminator), terminator byte inside the value at odd / even offsets, empty, min / max
+    length; in `[sid, t, y:u8]`; yields (composite, value)"""
+    n = 0
+    for bt, enc in (("A_UNICODE2STRING", None), ("A_ASCIISTRING", None), ("A_UTF8STRING", None), ("A_BYTEFIELD", None)):
+        for term in ("ZERO", "HEX-FF"):
+            for hl in ((None, False) if bt == "A_UNICODE2STRING" else (None,)):
+                for mn, mx in ((0, None), (0, 8), (2, 6)):
+                    n += 1
+                    dct = D.MinMax(bt, mn, mx, term, enc, hl)
+                    comp = D.Composite(f"MM{n}", "request", [D.sid(), D.value("t", D.SimpleDop(dct, bt)), D.value("y", D.u8())])
+                    if bt == "A_UNICODE2STRING":
+                        vals = ["", "A", "AB", "A\u0100", "\u0100A", "x\u00ff", "\u4100\u0041", "\u0141\u00ff", "\uff41", "A\uff00", "\u00ff\u0100\u00ff",
+                                "abc", "\u0100\u0100\u0100", "\u01ff\uff01"]
+                    elif bt == "A_BYTEFIELD":
+                        vals = [b"", b"\x01", b"\x01\x02", b"\xfe\x01", b"\x01\xfe\x7f", bytes(range(1, 7)), b"\x80" * 8, b"\x01\x02\x03\x04\x05\x06\x07\x08"]
+                    else:
+                        vals = ["", "A", "AB", "abc", "abcdef", "abcdefgh", "\x7f\x01", "zz\x01z"]
+                    for v in vals:
+                        yield comp, {"t": v, "y": 0xA5}
+
+
 # ------------------------------------------------------------------ measured input distribution
 def features(comp):
     """histogram keys of a composite: (histogram name, key) pairs"""
